@@ -2,6 +2,7 @@
 import gzip
 import json
 import os
+import unicodedata
 import random
 
 from ..env import Scratch, FileBuilder
@@ -23,11 +24,15 @@ CONFIG = {
              'path in a directory that does not exist yet) - each for build and for clean; oracle: if the call raised '
              'and no user function was entered, the tree incl. the cache file is bit-identical (bytes, mtime_ns, inode), '
              'the library issued no mutating file-system event outside the private temp dir and left nothing in it; '
-             'calls the library accepts (e.g. a flipped gzip MTIME byte) are counted, not judged - except truncations: an accepted proper prefix of a valid cache is a violation; evaluations = refused '
+             'calls the library accepts (e.g. a flipped gzip MTIME byte) are counted, not judged - except truncations, other build names (incl. near misses of the stored name: empty, prefix, case, padding), wrong-typed arguments and a directory at the cache path: accepting those is a violation; evaluations = refused '
              'calls judged; distinct_nontrivial = distinct (corruption class, API, exception class)'),
     'gates': ['refused', 'refused:build', 'refused:clean', 'class:truncate', 'class:bitflip', 'class:json_shape',
               'class:wrong_type_arg', 'class:name_mismatch', 'class:cache_is_dir', 'accepted'],
 }
+
+
+MUST_REFUSE = {'truncate': 'truncated_cache', 'name_mismatch': 'other_build_name',
+               'wrong_type_arg': 'wrong_typed_argument', 'cache_is_dir': 'cache_path_is_directory'}
 
 
 class NotCalled(Exception):
@@ -114,10 +119,12 @@ def attempt(sh, w, cls, label, api, call, program):
     if entered or exc is None:
         sh.count('accepted')
         sh.count('accepted:' + cls)
-        if cls == 'truncate':
-            # a proper prefix of a valid cache file is "truncated": the property demands refusal
+        if cls in MUST_REFUSE:
+            # classes the property names as refusal reasons (a proper prefix of a valid cache file is
+            # "truncated", a different build name, a wrong-typed argument, a directory at the cache path):
+            # accepting the call is the violation
             sh.evaluations += 1
-            sh.violation('truncated_cache_not_refused|%s|%s' % (api, 'function_called' if entered else 'returned'),
+            sh.violation('%s_not_refused|%s|%s' % (MUST_REFUSE[cls], api, 'function_called' if entered else 'returned'),
                          {'label': label, 'cut_from_end': label_cut(label)},
                          {'kind': 'c15', 'class': cls, 'label': label, 'api': api, 'program': program,
                           'steps': list(w.steps), 'cache_rel': w.cache_rel})
@@ -225,6 +232,17 @@ def run_shard(sh):
                         lambda root: FileBuilder.clean(cache, name + 'x'), program)
                 attempt(sh, w, 'name_mismatch', 'build_versioned', 'build',
                         lambda root: FileBuilder.build_versioned(cache, '', {}, root), program)
+                # near misses of the stored name (empty, prefix, case, padding, NFD look-alike, NUL, '0')
+                for other in ('', name[:-1], name.upper(), name + ' ', ' ' + name, name + '\x00', '0',
+                              'None', 'null', unicodedata.normalize('NFD', name + 'é')):
+                    if other == name:
+                        continue
+                    attempt(sh, w, 'name_mismatch', 'near:' + repr(other)[:12], 'build',
+                            lambda root, o=other: FileBuilder.build(cache, o, root), program)
+                    attempt(sh, w, 'name_mismatch', 'near:' + repr(other)[:12], 'build',
+                            lambda root, o=other: FileBuilder.build_versioned(cache, o, {}, root), program)
+                    attempt(sh, w, 'name_mismatch', 'near:' + repr(other)[:12], 'clean',
+                            lambda root, o=other: FileBuilder.clean(cache, o), program)
                 # ---- wrong-typed arguments, on the valid cache and on a cache path in a missing directory
                 missing = os.path.join(w.sb, 'nodir1', 'nodir2', 'cache.gz')
                 for cp in (cache, missing):
